@@ -880,10 +880,15 @@ class StopScript(BaseException):
 
 
 def install_fake_redis(plan, sleeps):
-    """a `redis` package whose connections behave per `plan` (list of passes)"""
+    """A `redis` / `redis.asyncio` package whose connections behave per `plan` (list of passes of the
+    retry loop).  Faithful where it matters: subscription state belongs to the PubSub OBJECT (a new
+    connection's PubSub is unsubscribed until `subscribe()` has really run), in the asyncio flavour
+    `subscribe()` is a coroutine function (calling it without `await` subscribes nothing), and
+    `listen()` on an unsubscribed PubSub ends at once without yielding (redis-py: `while
+    self.subscribed`).  A pass of the plan is consumed only by what really happens."""
     class RedisError(Exception):
         pass
-    state = {'i': 0, 'yielded': 0, 'reconnects': 0, 'publishes': []}
+    state = {'i': 0, 'yielded': 0, 'reconnects': 0, 'publishes': [], 'idle': 0, 'made': 0}
 
     def cur():
         if state['i'] >= len(plan):
@@ -892,37 +897,64 @@ def install_fake_redis(plan, sleeps):
 
     class PubSub:
         def __init__(self):
-            self.first = True
+            self.subscribed = False
+            self.initial = state['made'] == 0       # the one created by the constructor
+            state['made'] += 1
 
-        def subscribe(self, channel):
+        def _subscribe(self, channel):
+            if self.initial and not self.subscribed:
+                self.subscribed = True               # `_listen()` subscribes the first connection
+                return
             p = cur()
             if p == 'connectFails':
                 state['i'] += 1
                 raise RedisError('subscribe')
+            self.subscribed = True
             state['reconnects'] += 1
 
-        def unsubscribe(self, channel):
-            pass
+        def subscribe(self, channel):
+            return self._subscribe(channel)
 
-        def listen(self):
+        def unsubscribe(self, channel):
+            self.subscribed = False
+
+        def _listen(self):
+            if not self.subscribed:
+                # nothing to listen to: the generator ends; the script is not consumed
+                state['idle'] += 1
+                if state['idle'] > 25:
+                    raise StopScript()
+                return
             p = cur()
+            if p == 'connectFails':
+                # the plan expects a reconnection attempt here, the code listens on a live PubSub:
+                # nothing arrives on it any more
+                state['idle'] += 1
+                if state['idle'] > 25:
+                    raise StopScript()
+                return
+            state['idle'] = 0
             kind, n = ('listenFails', p['listenFails']) if 'listenFails' in p else ('listenEnds', p['listenEnds'])
             state['i'] += 1
             for k in range(n):
                 state['yielded'] += 1
                 yield {'channel': b'socketio', 'type': 'message', 'data': pickle.dumps({'n': k})}
             if kind == 'listenFails':
+                self.subscribed = False
                 raise RedisError('listen')
+
+        def listen(self):
+            return self._listen()
 
     class APubSub(PubSub):
         async def subscribe(self, channel):
-            return PubSub.subscribe(self, channel)
+            return self._subscribe(channel)
 
         async def unsubscribe(self, channel):
-            pass
+            self.subscribed = False
 
         async def listen(self):
-            for m in PubSub.listen(self):
+            for m in self._listen():
                 yield m
 
     class Redis:
@@ -965,8 +997,11 @@ def uninstall_fake_redis():
 
 def run_redis(plan, is_async):
     import asyncio
+    import warnings
     sleeps = []
+    handed = [0]            # messages that `_listen()` handed to the listener loop
     state = install_fake_redis(plan, sleeps)
+    warnings.simplefilter('ignore', RuntimeWarning)       # "coroutine ... was never awaited"
     try:
         if is_async:
             mod = importlib.reload(importlib.import_module('socketio.async_redis_manager'))
@@ -982,8 +1017,8 @@ def run_redis(plan, is_async):
 
             async def drive():
                 try:
-                    async for _ in m._redis_listen_with_retries():
-                        pass
+                    async for _ in m._listen():
+                        handed[0] += 1
                 except StopScript:
                     pass
             loop = asyncio.new_event_loop()
@@ -1000,11 +1035,11 @@ def run_redis(plan, is_async):
             mod.time = _Time()
             m = mod.RedisManager('redis://')
             try:
-                for _ in m._redis_listen_with_retries():
-                    pass
+                for _ in m._listen():
+                    handed[0] += 1
             except StopScript:
                 pass
-        return {'sleeps': sleeps, 'yielded': state['yielded'], 'reconnects': state['reconnects']}
+        return {'sleeps': sleeps, 'yielded': handed[0], 'reconnects': state['reconnects']}
     finally:
         uninstall_fake_redis()
         for name in ('socketio.redis_manager', 'socketio.async_redis_manager'):
@@ -1057,10 +1092,16 @@ def redis_part(ctx, drv):
                         exp.append(cur)
                         cur = min(cur * 2, 60)
                         connect = True
-            if got['sleeps'] != exp or got['yielded'] != yielded:
-                ctx.violation('oracle', 'redis retry loop (%s): sleeps %r (required %r), yielded %d (required %d)' % (
-                    'asyncio' if is_async else 'threading', got['sleeps'], exp, got['yielded'], yielded),
-                    {'plan': plan, 'async': is_async})
+            if got['yielded'] != yielded:
+                ctx.violation('oracle', 'redis backend (%s): %d message(s) were published over connections that '
+                              'were (re-)established, %d reached the listener: what follows a connection failure '
+                              'is not processed' % ('asyncio' if is_async else 'threading', yielded, got['yielded']),
+                              {'plan': plan, 'async': is_async, 'observed': got})
+                return
+            if got['sleeps'] != exp:
+                ctx.violation('oracle', 'redis retry loop (%s): sleeps %r (required %r)' % (
+                    'asyncio' if is_async else 'threading', got['sleeps'], exp),
+                    {'plan': plan, 'async': is_async, 'observed': got})
                 return
             if got != want:
                 ctx.violation('correspondence', 'redis retry loop: implementation %r, model %r' % (got, want),
